@@ -476,18 +476,43 @@ def merge_conditional_assignments(tree):
 # the else of a branch that always leaves is the rest of the block
 # ---------------------------------------------------------------------------------------------------------------------
 def unnest_else_after_leave(tree):
-    """if c: ... return / raise / continue / break   else: REST     ->     if c: ... ;  REST     (elif chains are kept as chains); returns how many"""
+    """A two-way `if` (not an arm of an elif chain) one of whose branches always leaves (return / raise / continue / break) is a guard followed by the rest:
+         if c: LEAVE  else: REST          ->  if c: LEAVE ;  REST
+         if c: REST   else: LEAVE         ->  if not c: LEAVE ;  REST          (REST does not leave)
+    When both branches leave: a branch that is a single `raise` is the guard; two one-statement branches are read under the un-negated test; otherwise the body is the guard.
+    The result does not depend on which of the equivalent ways (negated or not, with or without the else) the source uses.  Returns how many were rewritten."""
     def leaves(body):
         return bool(body) and isinstance(body[-1], (ast.Return, ast.Raise, ast.Continue, ast.Break))
+
+    def only_raise(body):
+        return len(body) == 1 and isinstance(body[0], ast.Raise)
+
+    def neg(t):
+        if isinstance(t, ast.UnaryOp) and isinstance(t.op, ast.Not):
+            return t.operand
+        return ast.copy_location(ast.UnaryOp(op=ast.Not(), operand=t), t)
     n = 0
     for node in ast.walk(tree):
         for field in ("body", "orelse", "finalbody"):
             body = getattr(node, field, None)
             if not (isinstance(body, list) and body and all(isinstance(s, ast.stmt) for s in body)):
                 continue
+            if field == "orelse" and isinstance(node, ast.If) and len(body) == 1:
+                continue                      # the last arm of an elif chain stays an arm of the chain
             new = []
             for st in body:
-                if isinstance(st, ast.If) and st.orelse and leaves(st.body) and not (len(st.orelse) == 1 and isinstance(st.orelse[0], ast.If)):
+                if isinstance(st, ast.If) and st.orelse and not (len(st.orelse) == 1 and isinstance(st.orelse[0], ast.If)) and (leaves(st.body) or leaves(st.orelse)):
+                    lb, lo = leaves(st.body), leaves(st.orelse)
+                    negated = isinstance(st.test, ast.UnaryOp) and isinstance(st.test.op, ast.Not)
+                    if lb and lo:
+                        if only_raise(st.body) != only_raise(st.orelse):
+                            swap = only_raise(st.orelse)
+                        else:
+                            swap = negated and len(st.body) == len(st.orelse) == 1
+                    else:
+                        swap = lo
+                    if swap:
+                        st.body, st.orelse, st.test = st.orelse, st.body, neg(st.test)
                     rest, st.orelse = st.orelse, []
                     new.append(st)
                     new.extend(rest)
@@ -496,4 +521,61 @@ def unnest_else_after_leave(tree):
                     new.append(st)
             if len(new) != len(body):
                 setattr(node, field, new)
+    return n
+
+
+# ---------------------------------------------------------------------------------------------------------------------
+# for i, _ in enumerate(X)  and  for i in range(len(X))  visit the same indices
+# ---------------------------------------------------------------------------------------------------------------------
+LOOP_TABLE = os.path.join(os.path.dirname(os.path.abspath(__file__)), "loop_table.json")
+
+
+def _loop_twin(target, it):
+    """the other way of writing an index loop: (target, iter) or None"""
+    if isinstance(target, ast.Tuple) and len(target.elts) == 2 and isinstance(target.elts[1], ast.Name) and target.elts[1].id == "_" \
+            and isinstance(it, ast.Call) and isinstance(it.func, ast.Name) and it.func.id == "enumerate" and len(it.args) == 1 and not it.keywords:
+        return target.elts[0], ast.Call(func=ast.Name(id="range", ctx=ast.Load()), args=[ast.Call(func=ast.Name(id="len", ctx=ast.Load()), args=[it.args[0]], keywords=[])], keywords=[])
+    if isinstance(target, ast.Name) and isinstance(it, ast.Call) and isinstance(it.func, ast.Name) and it.func.id == "range" and len(it.args) == 1 and not it.keywords \
+            and isinstance(it.args[0], ast.Call) and isinstance(it.args[0].func, ast.Name) and it.args[0].func.id == "len" and len(it.args[0].args) == 1:
+        return ast.Tuple(elts=[target, ast.Name(id="_", ctx=ast.Store())], ctx=ast.Store()), ast.Call(func=ast.Name(id="enumerate", ctx=ast.Load()), args=[it.args[0].args[0]], keywords=[])
+    return None
+
+
+def _loop_key(target, it):
+    return ast.dump(target) + "|" + ast.dump(it)
+
+
+def _loops(tree):
+    for n in ast.walk(tree):
+        if isinstance(n, ast.For):
+            yield n, "target", "iter"
+        elif isinstance(n, ast.comprehension):
+            yield n, "target", "iter"
+
+
+def _kind(n):
+    return "for:" if isinstance(n, ast.For) else "in:"
+
+
+def loop_table_of(tree):
+    return sorted({_kind(n) + _loop_key(getattr(n, a), getattr(n, b)) for n, a, b in _loops(tree) if _loop_twin(getattr(n, a), getattr(n, b)) is not None})
+
+
+def load_loop_table():
+    if not os.path.exists(LOOP_TABLE):
+        return {}
+    return {k: set(v) for k, v in json.load(open(LOOP_TABLE)).items()}
+
+
+def restore_index_loops(tree, recorded):
+    n = 0
+    for node, a, b in _loops(tree):
+        tw = _loop_twin(getattr(node, a), getattr(node, b))
+        if tw is None or _kind(node) + _loop_key(getattr(node, a), getattr(node, b)) in recorded:
+            continue
+        if _kind(node) + _loop_key(*tw) in recorded and not (isinstance(tw[0], ast.Tuple) and any(isinstance(x, ast.Name) and x.id == "_" and isinstance(x.ctx, ast.Load) for x in ast.walk(node))):
+            setattr(node, a, tw[0])
+            setattr(node, b, tw[1])
+            ast.fix_missing_locations(node) if hasattr(node, "lineno") else None
+            n += 1
     return n
